@@ -12,7 +12,7 @@ GENERATED = ['DtypeTables', 'Core', 'Classes', 'SrcDecorate', 'SrcHints', 'SrcPy
 LEAN_MODULES = ["Properties.C14", "Properties.Core", "Properties.CoreClasses", "Properties.Prov.Decorate", "Properties.Prov.Hints", "Properties.Prov.Pydantic", "Properties.CoreHints"]
 RULE = (
     "seeded ordered field lists (1-4 fields over the context dimension alphabet: optional fields, multi-axis, expressions, mixed plain "
-    "fields; values arrays of the declared library or None for optional fields; 0-1 perturbations) generated once and presented in all four "
+    "fields; values arrays of the declared library or None for optional fields; 0-1 perturbations; in a third of the lists two fields share one annotation object through a type alias, one of them `| None`) generated once and presented in all four "
     "forms (dltyped function, dltyped dataclass, dltyped NamedTuple, pydantic model), positionally and by keyword in declaration and reversed "
     "order; the four verdicts and reports must be equal to each other (and to the model's). non-trivial = distinct field list with >=2 "
     "annotated fields"
@@ -33,8 +33,20 @@ def cases(tier, rng, run):
             for _ in range(rng.randint(1, 2)):
                 pos = rng.randint(0, len(c.params))
                 c.params.insert(pos, gen_ctx.Param(f"k{len(c.params)}", [gen_ctx.Slot(None, None, False, ("X",))], False))
+        alias = ""
+        ann = [p for p in c.params if p.slots[0].cls is not None and p.slots[0].value[0] == "T"]
+        if len(ann) >= 2 and rng.random() < 0.35:
+            # a type alias: two fields share ONE annotation object, one of them spelled `Alias | None`
+            a, b2 = rng.sample(ann, 2)
+            sa, sb = a.slots[0], b2.slots[0]
+            sb.cls, sb.shape, sb.value = sa.cls, sa.shape, sa.value
+            sa.optional, sb.optional = rng.choice([(True, False), (False, True), (True, True)])
+            for s_ in (sa, sb):
+                if s_.optional and rng.random() < 0.6:
+                    s_.value = ("N",)
+            alias = "\tAL"
         for kind, style in (("func", rng.choice(["pos", "kw"])), ("nt", rng.choice(["pos", "kw", "kwrev"])), ("dc", rng.choice(["pos", "kw", "kwrev"])), ("pyd", rng.choice(["kw", "kwrev"]))):
-            out.append(Case(c.call_line(kind, style), kind, {"group": gi, "ctx": c}))
+            out.append(Case(c.call_line(kind, style) + alias, kind, {"group": gi, "ctx": c}))
     return out
 
 
